@@ -114,6 +114,18 @@ def cases(tier, seed):
                 for mode in ("chunk:1", "chunk:3", "chunk:5", "chunk:0"):
                     cs.append(Case("req-%d-%s-%d-%s" % (mem, ep, B, mode.replace(":", "")), [ops[0], "rp.sinkmode " + mode] + ops[1:],
                                    ("requests", "chunk-sink", ep, str(mem))))
+            # a TCP sink that is busy once (EAGAIN / EINTR, then takes the octet) at every position of the answer: the answer on
+            # the wire must not show it
+            if not serial and B == 128:
+                for mode in ("octet", "chunk:3"):
+                    bops = [R.cfg(mem, ep, B), "rp.sinkmode " + mode]
+                    for k in range(0, 24):
+                        for e in ("eagain", "eintr"):
+                            bops += ["rp.sinkbusy %d %s" % (k, e), "rp.backend 0 5 %d" % k] + feed(serial, R.request(serial, False, mem == 16, k, 100 + k, 3)) + rpf()
+                            bops += ["rp.sinkbusy %d %s" % (k, e), "rp.backend 0 0 0"] + feed(serial, R.request(serial, True, mem == 16, k, 200 + k, 2, R.rbytes(rnd, 2 * unit))) + rpf()
+                            bops += ["rp.sinkbusy %d %s" % (k, e), "rp.backend 7 9 0"] + feed(serial, R.request(serial, False, mem == 16, k, 300 + k, 1)) + rpf()
+                    bops.append("rp.sinkbusy never eagain")
+                    cs.append(Case("busy-%d-%s" % (mem, mode.replace(":", "")), bops, ("requests", "sink-busy", str(mem))))
             # sessions: requests interleaved with frames that must not be executed
             ops = [R.cfg(mem, ep, B), "rp.backend 0 0 1"]
             for i in range(30 * reps):
